@@ -7,6 +7,7 @@ Mutating events under root are recorded by an audit hook and indexed 0.. in orde
   crash:        os._exit(77) when event `index` is about to happen
   error_event:  OSError(ENOSPC) raised from the hook at event `index` (open-for-write, mkdir, rename, remove)
   error_write:  the file opened by event `index` (an open-for-write) accepts half of the first write, then EFBIG
+  fsize:        the whole faulted phase runs under RLIMIT_FSIZE = `limit` bytes (kernel-level short writes, then EFBIG)
 """
 import builtins
 import errno
@@ -145,8 +146,23 @@ def main():
             sink.append(dict(call=[name, x], result=res, execs=sum(1 for c in ran if c == (name, x)),
                              nested_max=max([ran.count(c) for c in set(ran)] or [0])))
 
+    restore = None
+    if fault is not None and fault["kind"] == "fsize":
+        # a real kernel-level limit on the size of every file this process writes (RLIMIT_FSIZE, SIGXFSZ ignored): a write
+        # that crosses the limit is cut short by the kernel and the next one fails with EFBIG
+        import resource
+        import signal
+        signal.signal(signal.SIGXFSZ, signal.SIG_IGN)
+        soft, hard = resource.getrlimit(resource.RLIMIT_FSIZE)
+        resource.setrlimit(resource.RLIMIT_FSIZE, (int(fault["limit"]), hard))
+        restore = lambda: resource.setrlimit(resource.RLIMIT_FSIZE, (soft, hard))
+        state["armed"] = False
     with fsaudit.Recorder([root], fault=on_event):
-        do_calls(spec.get("calls", []), out["results"])
+        try:
+            do_calls(spec.get("calls", []), out["results"])
+        finally:
+            if restore:
+                restore()
     state["armed"] = False
     do_calls(spec.get("then", []), out["then"])
     sys.stdout.write(json.dumps(out) + "\n")
